@@ -189,10 +189,10 @@ RECURSIVE EWOps(_, _, _, _, _)
 EWOps(ew, ops, i, ind, cur) == IF i > Len(ops) THEN ew ELSE EWOps(EWOp(ew, ops[i], ind, cur), ops, i + 1, ind, cur)
 \* the attributes an operation list stands for
 EWLogical(ops) == Flatten([i \in 1..Len(ops) |-> IF ops[i][1] = "attr" THEN <<<<ops[i][2], ops[i][3]>>>> ELSE IF ops[i][1] = "attrs" THEN ops[i][2] ELSE <<>>])
-\* events written by finishing the element: fin = <<"empty">> | <<"text", s>> | <<"cdata", s>> | <<"pi", s>>
+\* events written by finishing the element: fin = <<"empty">> | <<"text", s>> | <<"inner", s>> | <<"cdata", s>> | <<"pi", s>>
 EWFinish(tag, name, fin) ==
     CASE fin[1] = "empty" -> <<[k |-> "Empty", b |-> tag]>>
-      [] fin[1] = "text" -> <<[k |-> "Start", b |-> tag], MkText(fin[2]), [k |-> "End", b |-> name]>>
+      [] fin[1] \in {"text", "inner"} -> <<[k |-> "Start", b |-> tag], MkText(fin[2]), [k |-> "End", b |-> name]>>   \* inner: the same through write_inner_content
       [] fin[1] = "cdata" -> <<[k |-> "Start", b |-> tag], [k |-> "CData", b |-> fin[2]], [k |-> "End", b |-> name]>>
       [] OTHER -> <<[k |-> "Start", b |-> tag], [k |-> "PI", b |-> fin[2]], [k |-> "End", b |-> name]>>
 
